@@ -60,6 +60,7 @@ type wsState struct {
 	o      *imagev1.Image // decoded with res
 	res    resolver
 	v0OK   bool
+	gitOK  bool // pk/repo.git exists (the git binary is available)
 	cands  []string
 	broken bool
 }
@@ -295,7 +296,10 @@ func run(r *evid.Run) {
 		"every packaging of the tree (dir, tar, tar.gz, tar.zst, zip, wrapped archives with strip_components/subdir, `buf export` output), " +
 		"and every selection (P,X) of --path/--exclude-path values with P,X subsets of {each directory, each file}, |P|<=2, |X|<=2, no p inside an x, " +
 		"for build, lint and breaking on the directory and on the image built from it; lint/breaking with the workspace's configuration and with a --config menu " +
-		"(rule sets; v1/v2 files without a lint/breaking section, i.e. the version's default; v2 files with only the other section). In the quick tier lint/breaking take the selections " +
+		"(rule sets; v1/v2 files without a lint/breaking section, i.e. the version's default; v2 files with only the other section). " +
+		"Every selection with |P|<=1, |X|<=1 is also run on the other ways of naming the same tree as an input, with the path values spelled as that input wants them " +
+		"(tar/zip/tar.gz/git with #subdir (one and two levels, spelled ./top, unnormalised entry names), #strip_components, both, #subdir=.; the directory from its parent, by absolute path, values spelled ./x; " +
+		"a module directory of a multi-module workspace as directory and as archive subdir) and compared with the directory route: build always, lint/breaking with the workspace's configuration. In the quick tier lint/breaking take the selections " +
 		"{none, one path, one exclude, one exclude inside one path} and the menu is crossed with 'no selection' fully and with one-path selections pairwise (rotating). A case is distinct/non-trivial when its " +
 		"(workspace, encoding, flags) or (workspace, selection with a non-empty proper effect) differs")
 	r.Assume("workspaces are hand-written (26 in the thorough tier, 13 in the quick tier), not generated: custom options (scalar, message-typed, Any-typed, extension-of-extension), proto2 extensions and groups, editions, services, comments, unused/public imports, missing syntax, v1/v2 buf.yaml, buf.work.yaml, named and unnamed modules")
@@ -387,6 +391,9 @@ func run(r *evid.Run) {
 		"sel_breaking_annotations_narrowed", "api_strip_cases",
 		"sel_lint_v2_default_reports_v2_only_rule", "sel_breaking_v2_default_reports_v2_only_rule", "sel_menu_config_x_selection_shape_pairs",
 		"pack_export_equal_with_vendored_wkt", "enc_roundtrips_ok_legacy_features",
+		"sel_forms_subdir_exclude_only_effective", "sel_forms_subdir_path_only_effective", "sel_forms_subdir_path_and_exclude_effective",
+		"sel_forms_directory_ref_effective", "sel_forms_module_dir_effective", "sel_forms_git_subdir_effective",
+		"sel_forms_lint_subdir_exclude_only_with_annotations", "sel_forms_breaking_subdir_exclude_only_with_annotations",
 	} {
 		if counts[k] == 0 && !r.Expired() {
 			r.Incomplete("clause never exercised: " + k)
@@ -1122,6 +1129,7 @@ func (rn *runner) selectionItems(s *wsState) []func() {
 	if lb {
 		items = append(items, func() { rn.breakingDirAgainstDir(s) })
 	}
+	items = append(items, rn.moduleDirItems(s)...)
 	return items
 }
 
@@ -1188,6 +1196,10 @@ func (rn *runner) selectBuild(s *wsState, sel selection, idx int, small bool) {
 		ci.Commands = append(ci.Commands, rt.out.args)
 	}
 	src := routes[0].out
+	if small {
+		// round 3: the same selection on every other way of naming the tree as an input (inputforms.go)
+		rn.selectForms(s, sel, src, sp, sx)
+	}
 	if sel.same {
 		// the same path as --path and --exclude-path: the statement only asks for agreement
 		for _, rt := range routes[1:] {
@@ -1371,6 +1383,14 @@ func (rn *runner) selectCheck(s *wsState, sel selection, kind string, cfgEntry c
 	}
 	shape := s.shape(sel)
 	rank := len(sel.P) + len(sel.X)
+	if rule == "" {
+		// round 3: the other input forms of the same tree against the directory's result (inputforms.go)
+		if a.ExitCode != 0 && a.ExitCode != 100 {
+			rn.checkForms(s, sel, kind, a.ExitCode, nil, srcArgs)
+		} else if dirAnns, err := parseAnnotations(a.Stdout); err == nil {
+			rn.checkForms(s, sel, kind, a.ExitCode, dirAnns, srcArgs)
+		}
+	}
 	cfg := "workspace-config"
 	if rule != "" {
 		cfg = "config-override"
